@@ -67,4 +67,47 @@ CLAIMS = {
              "definition-order and hash-seed independence.",
         note="Trusted: spec/typealgebra in_ok/out_ok. Known findings: output list items compared with the input rule (pinned by tests); safe retypes "
              "are not reported at all."),
+    "C04": dict(
+        category="other", engine="rtc",
+        technique="run-time functional contract (ordered data + error multiset == reference execution algorithm) over generated operations x resolver worlds",
+        text="Bounded: for hand-written merge/fragment patterns plus a seeded generator of valid operations (aliases, same-key merging, fragments at every "
+             "placement, directives with variables, abstract types, lists, arguments) and worlds placing null / ResolverError / null list item / empty "
+             "list / unexpected exception at every resolved path, both synchronous executors produce exactly the reference result; results are "
+             "independent of earlier requests on the same schema object.",
+        note=BND + "Trusted: vf/ref_exec.py + vf/ref_coerce.py (specification transcriptions). The executor is outside the VC generator's subset."),
+    "C08": dict(
+        category="other", engine="rtc",
+        technique="run-time functional contract under every enumerated completion order of parked resolver tasks (stateless DFS over schedules), 4 configurations",
+        text="Bounded: BlockingExecutor, Executor on Blocking / AsyncIO / ThreadPool runtimes each satisfy the C04 contract for every completion order of "
+             "the in-flight tasks (thread pool replaced by a parking executor incl. tasks that finish at submit time; asyncio resolvers gated by harness "
+             "futures); unexpected exceptions surface unchanged; nothing stays pending once all tasks ran.",
+        note=BND + "Callbacks are atomic (one thread): pre-emptive thread interleavings inside done-callbacks and fair termination are outside this family's reach."),
+    "C09": dict(
+        category="other", engine="rtc",
+        technique="run-time serial-trace contract on the resolver event log for every enumerated completion order",
+        text="Bounded: for mutations with 1..4 top-level fields (also reached through fragments), nested deferred sub-fields and failures at each position, "
+             "under all 4 configurations and every completion order: a later top-level resolver is invoked only after every resolver below the earlier "
+             "field finished; result == reference in document order.",
+        note=BND + "Atomic callbacks; see C08."),
+    "C10": dict(
+        category="other", engine="rtc",
+        technique="run-time response-format contracts on enumerated request outcomes (every failure stage, every truncation point)",
+        text="Bounded: strict JSON, error entries (message, 1-based line/column inside the document, path of keys/indices), extensions pass-through, data "
+             "omitted for syntax / validation failures, data null + errors for request errors, one error per failed position, for executions with "
+             "failures everywhere, every prefix of request texts, invalid documents and variable errors.",
+        note=BND + "Known findings: misspelt 'columne' key and IndexError when rendering the len+1 position (both pinned by tests)."),
+    "C16": dict(
+        category="other", engine="rtc",
+        technique="run-time hook / middleware trace contracts over request outcomes x runtimes x completion orders",
+        text="Bounded: stage hooks paired, properly nested, at most once, ended even on errors; field hooks exactly once per resolved field around the "
+             "resolver call; middlewares exactly once in the documented nesting; stacked instrumentations start in order and end in reverse; all 4 "
+             "configurations and completion orders.",
+        note=BND + "Ghost-trace contracts over callbacks are evaluated at run time only."),
+    "C17": dict(
+        category="other", engine="rtc",
+        technique="run-time per-event contract against the reference executor over enumerated event sequences",
+        text="Bounded: all event sequences of length 0..3 over {ok, root resolver error, nested error / null in non-null}, sync and async subscription "
+             "resolvers, delays: one result per event in order, k-th result == selection executed on the k-th event with only its errors (also after an "
+             "event that failed unexpectedly); seven refusal cases are raised before the source stream is advanced.",
+        note=BND + "Concurrent pulls by a consumer that does not await are not covered."),
 }
